@@ -82,6 +82,7 @@ pub fn gen_rules(rng : &mut Rng, pr : &Profile) -> (Vec<XRule>, Vec<String>)
         r.x = rng.chance(1, 6);
         r.layout = rng.below(2) as u8;
         r.rev = rng.chance(1, 2);
+        r.flat = rng.chance(1, 4);
         for t in &r.tg { avail.push(t.clone()); }
         rules.push(r);
     }
@@ -139,7 +140,7 @@ fn user_action(rng : &mut Rng, pr : &Profile, scn : &mut Scn, rules : &mut Vec<X
                 0 => { rules[k].id = format!("c{}v{}", k, rng.below(3)); },
                 1 => { if !pr.fail { return false; } rules[k].kind = if rules[k].kind == "fail" || rules[k].kind == "kill" { "fn".to_string() } else if rng.chance(1, 3) { "kill".to_string() } else { "fail".to_string() }; },
                 2 => { rules[k].layout = 1 - rules[k].layout; },
-                3 => { rules[k].rev = !rules[k].rev; },
+                3 => { if rng.chance(1, 2) { rules[k].rev = !rules[k].rev; } else { rules[k].flat = !rules[k].flat; } },
                 4 if rng.chance(1, 2) =>
                 {   /* drop a source that is another rule's target (undoes most cycles) or a duplicated target */
                     let before = (rules[k].src.clone(), rules[k].tg.clone());
